@@ -48,11 +48,15 @@ package metric
 
 // directory listing and index scanning are file I/O (assumed); what is checked is which index offset the search
 // hands to which file: a non-zero resume offset belongs to the cached file only
+//@ ghost var gListedLen Int
+//@ ghost var gListed (Array Int Str)
 //@ func listMetricFiles(baseDir, filePattern) (names, err)
 //@   assumed
 //@   panics never
 //@   ensures len(names) < 4294967296
-//@   modifies nothing
+//@   ensures err != nil ==> len(names) == 0
+//@   ensures gListedLen == len(names) && (forall k Int :: 0 <= k && k < len(names) ==> sel(gListed, k) == names[k])
+//@   modifies gListedLen, gListed
 //@ func (s *DefaultMetricSearcher) findOffsetToStart(filename, beginTimeMs, lastPos) (offset, err)
 //@   assumed
 //@   requires[resume-offset-belongs-to-the-file]{C17} lastPos == 0 || filename == s.cachedPos.metricFilename
@@ -69,3 +73,26 @@ package metric
 //@   loop 1:
 //@     invariant[later-files-from-the-start] i >= fileNo && (i > fileNo ==> offsetStart == 0)
 //@     invariant[first-file-is-the-cached-one] i == fileNo ==> offsetStart == 0 || (i < len(filenames) && filenames[i] == s.cachedPos.metricFilename)
+
+// ---- the number of log files never exceeds the configured maximum: before a new file is opened the writer removes the
+// oldest files (sorted listing, oldest first) until at most maxFileAmount-1 are left, each together with its index
+// file (two removals per file; that the second name is the first plus the index suffix is string concatenation,
+// which the contract language cannot state). File removal itself is the operating system's (assumed: it records which name it was asked to remove).
+//@ ghost var gRmN Int
+//@ ghost var gRmName (Array Int Str)
+//@ extern os.Remove(name) err
+//@   panics never
+//@   ensures gRmN == old(gRmN) + 1 && gRmName == upd(old(gRmName), old(gRmN), name)
+//@   modifies gRmN, gRmName
+//@ func (d *DefaultMetricLogWriter) removeDeprecatedFiles() err
+//@   props C17
+//@   requires d != nil && d.maxFileAmount > 0
+//@   let n0 = gRmN
+//@   panics never
+//@   ensures[room-for-the-next-file] gRmN == n0 + 2 * max(0, gListedLen - d.maxFileAmount + 1)
+//@   ensures[oldest-first] forall k Int :: 0 <= k && 2 * k < gRmN - n0 ==> sel(gRmName, n0 + 2 * k) == sel(gListed, k)
+//@   modifies gRmN, gRmName, gListedLen, gListed
+//@   loop 1:
+//@     invariant[removed-so-far] 0 <= i && (amountToRemove > 0 ==> i <= amountToRemove) && (amountToRemove <= 0 ==> i == 0) && gRmN == n0 + 2 * i && amountToRemove == len(files) - d.maxFileAmount + 1 && gListedLen == len(files)
+//@     invariant[which] forall k Int :: 0 <= k && k < i ==> sel(gRmName, n0 + 2 * k) == files[k]
+//@     invariant[listing] forall k Int :: 0 <= k && k < len(files) ==> sel(gListed, k) == files[k]
